@@ -29,6 +29,55 @@ BYTES = [b"'x' 'y' 'z' \"w\" and some more bytes", b'bytes and more', b'nospaces
 WIDTHS = [1, 2, 3, 5, 8, 13]
 
 
+def show(x, limit=60):
+    """long values are shown by their shape"""
+    r = repr(x)
+    if len(r) <= limit:
+        return r
+    import itertools
+    runs = [(k, len(list(g))) for k, g in itertools.groupby(x)]
+    if len(runs) <= 8:
+        parts = []
+        for k, n_ in runs:
+            k = bytes([k]) if isinstance(x, bytes) else k
+            parts.append(repr(k) if n_ == 1 else '%r*%d' % (k, n_))
+        return '+'.join(parts)
+    return '%s...%s (%d long)' % (r[:limit // 2], r[-limit // 3:], len(x))
+
+
+def show_list(xs):
+    if len(xs) > 6:
+        return '[%s, ... %d pieces]' % (', '.join(show(x, 30) for x in xs[:4]), len(xs))
+    return '[%s]' % ', '.join(show(x, 40) for x in xs)
+
+
+def _scales(repo, m, fn):
+    """size constants in the splitter and the module functions it reaches"""
+    import ast as _ast
+    from engine import thresholds
+    from engine.astutil import call_name
+    todo, seen = [fn], {}
+    mods = [m, repo.module('utils')]
+    while todo:
+        f = todo.pop()
+        if f.qualname in seen:
+            continue
+        seen[f.qualname] = f
+        for c in _ast.walk(f.node):
+            if isinstance(c, _ast.Call):
+                nm = call_name(c).split('.')[-1]
+                for mm in mods:
+                    g = mm.funcs.get(nm)
+                    if g is not None and g.qualname not in seen:
+                        todo.append(g)
+    ins, bey = {}, {}
+    for mm in mods:
+        a, b = thresholds.mine([mm], fns=[f.node for f in seen.values() if f.module is mm], most=512)
+        ins.update(a)
+        bey.update(b)
+    return ins, bey
+
+
 def _lit_eval(text):
     try:
         return True, ast.literal_eval(text)
@@ -81,6 +130,30 @@ def run(repo, rep, rules=None):
         else:
             stats['escaping'][1].append('%s %r escaped for the quote %s gives the literal %s, which %s' % (
                 what, x, q, lit, ('evaluates to %r' % (val,)) if ok else ('is not a valid literal (%s)' % val)))
+
+    def split_ok(w, qq, s, scaled=None):
+        try:
+            pieces = const_items(call('str_to_lines', [Const(w), Const(qq), Const(s)]))
+        except Raised as e:
+            stats['pieces'][1].append('str_to_lines(%d, %r, %s) raises %s' % (w, qq, show(s), e.what))
+            return None
+        except LoopLimit as e:
+            # a concrete text and a loop bound far above its length: the splitter makes no progress
+            stats['pieces'][1].append('str_to_lines(%d, %r, %s) does not terminate (%s): pformat of such a value hangs' % (w, qq, show(s), e))
+            return None
+        empty = s[:0]
+        joined = empty.join(pieces) if all(type(p) is type(s) for p in pieces) else None
+        if joined == s:
+            stats['pieces'][0] += 1
+        else:
+            stats['pieces'][1].append('str_to_lines(%d, %r, %s) yields %s: the pieces %s%s' % (
+                w, qq, show(s), show_list(pieces), 'are not all %s' % type(s).__name__ if joined is None else 'concatenate to %s' % show(joined),
+                (' (scenario scaled past the size constant %s)' % scaled) if scaled else ''))
+        if all(len(p) > 0 for p in pieces):
+            stats['nonempty'][0] += 1
+        else:
+            stats['nonempty'][1].append('str_to_lines(%d, %r, %s) yields an empty piece: %s' % (w, qq, show(s), show_list(pieces)))
+        return pieces
     for s in TEXTS + BYTES:
         try:
             # the quote chosen for the whole value
@@ -94,26 +167,9 @@ def run(repo, rep, rules=None):
             for qi, qq in enumerate(quotes):
                 escape_ok(qq, s, 'the value')
                 for w in WIDTHS:
-                    try:
-                        pieces = const_items(call('str_to_lines', [Const(w), Const(qq), Const(s)]))
-                    except Raised as e:
-                        stats['pieces'][1].append('str_to_lines(%d, %r, %r) raises %s' % (w, qq, s, e.what))
+                    pieces = split_ok(w, qq, s)
+                    if pieces is None:
                         continue
-                    except LoopLimit as e:
-                        # a concrete text of a few dozen characters and a loop bound of thousands: the splitter makes no progress
-                        stats['pieces'][1].append('str_to_lines(%d, %r, %r) does not terminate (%s): pformat of such a value hangs' % (w, qq, s, e))
-                        continue
-                    empty = s[:0]
-                    joined = empty.join(pieces) if all(type(p) is type(s) for p in pieces) else None
-                    if joined == s:
-                        stats['pieces'][0] += 1
-                    else:
-                        stats['pieces'][1].append('str_to_lines(%d, %r, %r) yields %r: the pieces %s' % (
-                            w, qq, s, pieces, 'are not all %s' % type(s).__name__ if joined is None else 'concatenate to %r' % (joined,)))
-                    if all(len(p) > 0 for p in pieces):
-                        stats['nonempty'][0] += 1
-                    else:
-                        stats['nonempty'][1].append('str_to_lines(%d, %r, %r) yields an empty piece: %r' % (w, qq, s, pieces))
                     if qi == 0 and w in (3, 8):
                         for pc in pieces[:6]:
                             escape_ok(qq, pc, 'a piece of %r split at width %d,' % (s, w))
@@ -137,6 +193,25 @@ def run(repo, rep, rules=None):
         except (Undecided, PathLimit) as e:
             if len(und) < 4:
                 und.append('%s (value %r)' % (e, s))
+    # scenarios scaled past every size constant the splitter (and what it calls) compares against: a branch taken only for "more than N"
+    # characters / lines is run with more than N
+    scales, beyond = _scales(repo, m, fs['str_to_lines'])
+    rep.note('size constants read by the splitter: %s%s' % (
+        {k: v[:2] for k, v in scales.items()} or 'none', ('; beyond the model: %s' % beyond) if beyond else ''))
+    for T in scales:
+        for w in (1, 5, 13):
+            for L in sorted({T + 1, T * w + 1, (T + 1) * w + 2}):
+                it.max_while = 4000 + 8 * L
+                for s in ('NAME' + ' ' * L + 'Smith', 'a' * L, 'Title' + '=' * L, 'x' * L + ' y z', 'ab ' * (L // 3 + 1), b'key:' + b' ' * L + b'value'):
+                    try:
+                        split_ok(w, "'", s, scaled='%d at %s' % (T, scales[T][0]))
+                    except (Undecided, PathLimit) as e:
+                        if len(und) < 4:
+                            und.append('%s (value %s)' % (e, show(s)))
+    it.max_while = 4000
+    for T, where_ in beyond.items():
+        rep.undecided(rules.get('pieces', 'C02.b'), 'string-model-scale', fs['str_to_lines'].where,
+                      'the splitter decides on the size constant %d (%s): no scenario of the model is that large' % (T, where_[0]))
     names = {'pieces': 'pieces-concatenate-to-the-value', 'nonempty': 'no-empty-piece', 'escaping': 'escaped-text-evaluates-back',
              'quotes': 'quote-is-a-quote-character', 'display': 'displayed-literal-evaluates-back'}
     floors = {'pieces': 300, 'nonempty': 300, 'escaping': 100, 'quotes': 30, 'display': 50}
